@@ -77,6 +77,17 @@ HISTORY = {
     'C10-8': 'would have been missed (deltas were root-positioned Metadata objects); C10 hands over positioned views',
     'C12-7': 'missed at first (needs several delivered newest trials deleted); C12 histories got runs of newest-trial deletions',
     'C12-8': 'missed at first (no study re-creation in C12); C12 got the re-create step',
+    'C11-8': 'missed at first (objective values were small integers and infinities); C11 histories and point sets got near-tie value profiles',
+    'C14-7': 'missed by C14 at first (caught by C20); C14 got the shared-experimenter scenario with a fingerprint of the problem statement handed to each run',
+    'C14-8': 'missed at first (seeds only from [0, 2^31); a restored run was only compared with itself); C14 got the accepted seed domain per designer and the in-RAM twin',
+    'C15-7': 'missed at first (each array was decoded once, from a throw-away copy); C15 got decode purity and repeatability monitors',
+    'C16-7': 'missed by C16 at first (caught by C09 and C17); C16 got the served family (structure, walk and add_trial verdicts on the space the service hands back)',
+    'C16-8': 'missed at first (no monitor edited a returned object); C16 got the alias family',
+    'C18-8': 'missed at first (needs update / predict / set_priors / predict on the single-metric GP designer); C18 got the GP bandit refit scenarios',
+    'C19-8': 'missed at first (no parallel acquisition with a trial-padded partial prior set; no score finite on fill rows); C19 got the parallel-priors groups and the catneg score class',
+    'C20-7': 'missed by C20 at first (caught by C14); C20 calls one factory object twice',
+    'C20-8': 'missed at first (only returned statements were mutated); C20 got the creator-mutation probe',
+    'C03-7': 'missed at first (every service case used a fresh study name); the C03 service route re-creates studies under names of deleted studies',
     'C01-1': 'a concurrency change: not visible to the sequential C01 check, caught by C04 (write monitor + serialisability)',
 }
 
